@@ -138,8 +138,10 @@ def nontrivial(case):
 
 
 # ------------------------------------------------------------------------------------------------ TLC side
-def consts(side, thorough, max_cuts, devs=()):
-    c = {"Side": '"%s"' % side, "MaxPipe": (3 if thorough else 2) if side == "req" else 1, "MaxCuts": max_cuts, "Rich": thorough}
+def consts(side, thorough, max_cuts, devs=(), max_pipe=None):
+    if max_pipe is None:
+        max_pipe = (3 if thorough else 2) if side == "req" else 1
+    c = {"Side": '"%s"' % side, "MaxPipe": max_pipe, "MaxCuts": max_cuts, "Rich": thorough}
     for d in DEVS:
         c[d] = d in devs
     return c
@@ -169,14 +171,14 @@ def export_cases(ck, side, thorough):
     return cases
 
 
-def model_check(ck, side, thorough, devs=(), max_cuts=None, coverage=True):
+def model_check(ck, side, thorough, devs=(), max_cuts=None, coverage=True, max_pipe=None):
     d = os.path.join(ck.work, "tlc_" + side)
     os.makedirs(d, exist_ok=True)
-    name = "MC_" + ("_".join(devs) if devs else "impl")
-    cfg = os.path.join(d, name + ".cfg")
     if max_cuts is None:
         max_cuts = 2
-    vf.write_cfg(cfg, constants=consts(side, thorough and not devs, max_cuts, devs), invariants=INVS)
+    name = "MC_" + ("_".join(devs) if devs else "impl_p%s_c%d" % (max_pipe, max_cuts))
+    cfg = os.path.join(d, name + ".cfg")
+    vf.write_cfg(cfg, constants=consts(side, thorough and not devs, max_cuts, devs, max_pipe), invariants=INVS)
     return vf.run_tlc(os.path.join(SPECDIR, "HttpFraming.tla"), cfg, tag="C15_%s_%s" % (side, name),
                       workers=2 if devs else 6, coverage=coverage and not devs, lib_dirs=[SPECDIR], timeout=1500)
 
@@ -216,7 +218,7 @@ def build_cases(ck, cases, thorough):
             if decided and (flood or thorough or ck.rng.random() < 0.3):
                 cuts = ";".join([""] + [str(ck.rng.randrange(1, max(2, total))) for _ in range(2)]) if not flood \
                     else ";" + str(bounds[-2] if len(bounds) > 1 else 1)
-                jobs.append((c, "e2e", case_line(c, "e2e", "L:" + cuts, 1500)))
+                jobs.append((c, "e2e", case_line(c, "e2e", "L:" + cuts, 6000)))
     return jobs
 
 
@@ -345,28 +347,45 @@ def judge(ck, jobs, out_path, name, retry=True):
     ck.note("%s: %d streams, %d validated, %d rejected by HttpFramingTrace, %d crashed" % (
         name, len(jobs), sum(len(r[0]) for r in results), len(rejected), len(bad)))
     confirmed = 0
-    # ---- a rejection is reported only if an immediate re-run (longer waits) repeats it
+    # ---- a rejection is reported only if an immediate re-run (alone, longer waits) repeats it.  When there are very
+    # many, a few of every kind are re-run and reported; the others are only counted.
     if rejected and retry:
-        rj = []
+        buckets = {}
         for i, evline in rejected:
+            buckets.setdefault((explain(jobs[i][0], evline), jobs[i][0]["side"], jobs[i][1]), []).append((i, evline))
+        chosen = []
+        for key in sorted(buckets):
+            chosen += buckets[key][:3]
+        chosen = chosen[:60]
+        if len(chosen) < len(rejected):
+            ck.note("%d rejected streams; %d of them (up to 3 of every kind) are re-run and reported: %s" % (
+                len(rejected), len(chosen), {"%s/%s/%s" % k: len(v) for k, v in sorted(buckets.items())}))
+        rj = []
+        for i, evline in chosen:
             c, mode, line = jobs[i]
             f = line.split(" | ")
             w = f[0].split()
-            w[5] = "6000"
+            w[5] = "8000"
             f[0] = " ".join(w)
             if "seg" in evline and mode != "fuzz":
                 f[6] = "L:" + ",".join(str(x) for x in evline["seg"])
             rj.append((c, mode, " | ".join(f)))
         out2 = run_driver(ck, rj, name + ".rerun")
         ev2 = vf.split_executions(vf.read_ndjson(out2))
-        for k, (i, evline) in enumerate(rejected):
+
+        def revalidate(k):
             p = os.path.join(ck.work, "%s.rr%d.ndjson" % (name, k))
             with open(p, "w") as f:
                 for e in ev2[k][1]:
                     f.write(json.dumps(e, separators=(",", ":")) + "\n")
                 f.write('{"e":"Reset"}\n')
-            v = vf.validate_trace(os.path.join(SPECDIR, "HttpFramingTrace.tla"), os.path.join(SPECDIR, "HttpFramingTrace.cfg"),
-                                  p, tag="C15_rr_%s_%d" % (name, k))
+            return p, vf.validate_trace(os.path.join(SPECDIR, "HttpFramingTrace.tla"), os.path.join(SPECDIR, "HttpFramingTrace.cfg"),
+                                        p, tag="C15_rr_%s_%d" % (name, k))
+        with cf.ThreadPoolExecutor(max_workers=8) as ex:
+            rvs = list(ex.map(revalidate, range(len(chosen))))
+        per_kind = {}
+        for k, (i, evline) in enumerate(chosen):
+            p, v = rvs[k]
             if v.error:
                 raise vf.Infra("trace validation error: " + v.error)
             c, mode, line = rj[k]
@@ -374,12 +393,15 @@ def judge(ck, jobs, out_path, name, retry=True):
                 ck.note("rejection not repeated on re-run (ignored): " + describe(c, mode, evline))
                 continue
             confirmed += 1
-            if len(ck.violations) < 10:
+            kind = explain(c, evline)
+            per_kind[kind] = per_kind.get(kind, 0) + 1
+            if per_kind[kind] <= 2 and len(ck.violations) < 14:
                 rp = ck.save_replay("%s_%d" % (name, i), {"case.txt": line + "\n", "trace.ndjson": p,
                                                           "why.txt": "HttpFramingTrace.tla rejects: " + describe(c, mode, evline) + "\n"})
-                ck.violation(explain(c, evline) + " — " + describe(c, mode, evline), rp)
+                ck.violation(kind + " — " + describe(c, mode, evline), rp)
             else:
                 ck.more_violations = getattr(ck, "more_violations", 0) + 1
+        ck.more_violations = getattr(ck, "more_violations", 0) + (len(rejected) - len(chosen) if confirmed else 0)
     for i, what in bad:
         confirmed += 1
         rp = ck.save_replay("%s_crash_%d" % (name, i), {"case.txt": jobs[i][2] + "\n"})
@@ -451,7 +473,13 @@ def run(ck):
     with cf.ThreadPoolExecutor(max_workers=12) as ex:
         fb = ex.submit(ck.make, "drv_httpframe")
         fexp = {s: ex.submit(export_cases, ck, s, thorough) for s in ("req", "resp")}
-        fmc = {s: ex.submit(model_check, ck, s, thorough) for s in ("req", "resp")}
+        # quick: every segmentation with <= 2 cuts of every stream; thorough (richer form set, pipelines of 3): <= 1 cut of
+        # every stream and <= 3 cuts of every single-message stream
+        if thorough:
+            fmc = {"req": ex.submit(model_check, ck, "req", True, (), 1), "req/single": ex.submit(model_check, ck, "req", True, (), 3, True, 1),
+                   "resp": ex.submit(model_check, ck, "resp", True, (), 3)}
+        else:
+            fmc = {s: ex.submit(model_check, ck, s, False) for s in ("req", "resp")}
         fdev = {d: ex.submit(model_check, ck, "req", False, (d,), 1) for d in DEVS}
         fb.result()
         cases = {s: f.result() for s, f in fexp.items()}
@@ -464,7 +492,7 @@ def run(ck):
         ck.transitions += r.generated
         for a, (tk, gn) in r.coverage.items():
             ck.cov[a] = ck.cov.get(a, 0) + gn
-        ck.note("HttpFraming.tla side=%s: %s, %d generated streams" % (s, r.summary(), len(cases[s])))
+        ck.note("HttpFraming.tla side=%s: %s, %d generated streams" % (s, r.summary(), len(cases[s.split("/")[0]])))
         if r.violated:
             rp = ck.save_replay("impl_spec_" + s, {"tlc.out": r.out})
             ck.violation("HttpFraming.tla (all Dev flags FALSE) violates %s on side %s" % (r.violated, s), rp)
